@@ -47,7 +47,7 @@ Proof. vm_compute. split; reflexivity. Qed.
 
 (* how many graphs of the bounded domains satisfy the hypotheses of the partial theorems *)
 Example ex_domain1_in_scope :
-  Z.of_nat (length (filter (fun fs => let g := graph_of [1;2;3]%nat [1] fs in single_alias g && indirect_acyclic g) domain1)) = 3856.
+  Z.of_nat (length (filter (fun fs => let g := graph_of [1;2;3]%nat [1] fs in indirect_acyclic g) domain1)) = 3856.
 Proof. vm_compute. reflexivity. Qed.
 
 (* wrapping: 1 requires 2 (ES module), 2 imports 3, 3 imports 4: all of 2,3,4 end up wrapped *)
